@@ -12,6 +12,8 @@ REGENERATED `julianDayNumber` of core/sudate.go.
 -/
 import Gsu.Proofs.Date
 import Gsu.Proofs.Date2
+import Gsu.Proofs.Date3
+import Gsu.Proofs.Date4
 import Gsu.Gen.Date
 namespace Gsu.Props.C33
 open Gsu.Date
@@ -62,14 +64,59 @@ theorem weekDay_succ (f : Fields) (hy : 0 ≤ f.yr) (hm1 : 1 ≤ f.mon) (hm2 : f
 /-- `Plus` is `normalize` of the field-wise sum, and whenever `normalize` returns a date it is a
 valid calendar date/time denoting the same instant as the overflowed fields (`absMs`: months
 carried into years, day/hour/minute/second/ms offsets linear on the proleptic Gregorian day
-number). A valid date/time is determined by its instant, so this fixes the result.
-NOT proved (tied by the correspondence run only): that `normalize` does return a date whenever
-the normalised instant lies in the supported years (the model converts the day number back with
-a closed formula and CHECKS it against `julianDayNumber`; a failed check would show up as a
-`!bad` answer the Go code does not give). -/
+number). A valid date/time is determined by its instant (`instant_determines_date` below), so
+this fixes the result (`plus_unique`). That `normalize` does return a date on the supported range
+is `plus_total` below. -/
 theorem plus_normalize (d off e : Fields) (h : plus d off = some e) :
     normalize (addFields d off) = some e ∧ valid e = true ∧ absMs e = absMs (addFields d off) :=
   ⟨h, Gsu.Date.normalize_spec _ _ h⟩
+
+/-- The generated `julianDayNumber` is injective on calendar days (so day differences are 0 only
+for the same day), and a valid date/time is determined by the instant it denotes. -/
+theorem instant_determines_date :
+    (∀ y m d y' m' d' : Int, validYMD y m d = true → validYMD y' m' d' = true →
+      jdn y m d = jdn y' m' d' → y = y' ∧ m = m' ∧ d = d') ∧
+    (∀ a b : Fields, valid a = true → valid b = true → absMs a = absMs b → a = b) := by
+  refine ⟨?_, Gsu.Date.absMs_inj⟩
+  intro y m d y' m' d' h h' hj
+  simp only [validYMD, Bool.and_eq_true, decide_eq_true_eq] at h h'
+  obtain ⟨⟨⟨⟨⟨a1, _⟩, a3⟩, a4⟩, a5⟩, a6⟩ := h
+  obtain ⟨⟨⟨⟨⟨b1, _⟩, b3⟩, b4⟩, b5⟩, b6⟩ := h'
+  exact Gsu.Date.jdn_inj _ _ _ _ _ _ (by omega) (by omega) a3 a4 a5 a6 b3 b4 b5 b6 hj
+
+/-- the result of `Plus` is THE valid date/time at the instant denoted by the overflowed sum -/
+theorem plus_unique (d off e e' : Fields) (h : plus d off = some e) (hv : valid e' = true)
+    (hi : absMs e' = absMs (addFields d off)) : e' = e := by
+  obtain ⟨hv2, hi2⟩ := Gsu.Date.normalize_spec _ _ h
+  exact Gsu.Date.absMs_inj e' e hv hv2 (hi.trans hi2.symm)
+
+/-- Totality: when the month-normalised year is not absurd (−4000..10000, outside the model
+answers NilDate without looking at the days) and the instant denoted by the overflowed sum lies
+between 0000-01-01 00:00:00.000 and 3000-01-01 00:00:00.000 inclusive, `Plus` returns a date — the
+valid date/time at exactly that instant. (The model converts the day number back with the closed
+formula `civil` and CHECKS it against the generated `julianDayNumber`; `civil_inverts_jdn` shows
+the check cannot fail.) -/
+theorem plus_total (d off : Fields)
+    (hy0 : -4000 ≤ normYear (d.yr + off.yr) (d.mon + off.mon))
+    (hy1 : normYear (d.yr + off.yr) (d.mon + off.mon) ≤ 10000)
+    (h0 : absMs ⟨0, 1, 1, 0, 0, 0, 0⟩ ≤ absMs (addFields d off))
+    (h1 : absMs (addFields d off) ≤ absMs ⟨3000, 1, 1, 0, 0, 0, 0⟩) :
+    ∃ e, plus d off = some e ∧ valid e = true ∧ absMs e = absMs (addFields d off) := by
+  have e0 : absMs ⟨0, 1, 1, 0, 0, 0, 0⟩ = 1721060 * 86400000 := by decide
+  have e1 : absMs ⟨3000, 1, 1, 0, 0, 0, 0⟩ = 2816788 * 86400000 := by decide
+  obtain ⟨e, he⟩ := Gsu.Date.normalize_total (addFields d off) hy0 hy1 (e0 ▸ h0) (e1 ▸ h1)
+  exact ⟨e, he, Gsu.Date.normalize_spec _ _ he⟩
+
+/-- the closed-form civil date used by the model inverts the GENERATED `julianDayNumber` on every
+day number from 0000-01-01 to 3000-01-01 and yields a calendar day of the supported years, so the
+checked inversion `fromJdn` never fails there -/
+theorem civil_inverts_jdn (n : Int) (h0 : jdn 0 1 1 ≤ n) (h1 : n ≤ jdn 3000 1 1) :
+    fromJdn n = some (civil n) ∧ jdn (civil n).1 (civil n).2.1 (civil n).2.2 = n ∧
+      validYMD (civil n).1 (civil n).2.1 (civil n).2.2 = true := by
+  have e0 : jdn 0 1 1 = 1721060 := by decide
+  have e1 : jdn 3000 1 1 = 2816788 := by decide
+  rw [e0] at h0; rw [e1] at h1
+  exact ⟨Gsu.Date.fromJdn_total n h0 h1, Gsu.Date.civil_spec n h0 h1⟩
 
 example : plus ⟨2024, 1, 31, 23, 59, 59, 999⟩ ⟨0, 1, 0, 0, 0, 0, 1⟩ = some ⟨2024, 3, 3, 0, 0, 0, 0⟩ := by
   decide
